@@ -892,6 +892,14 @@ def run(project: Project, rep, tier: str):
                         f"infinity line gone)", construct=f"{q}({ev.origin.param}): {ast.unparse(ev.node)[:100]}")
         else:
             rep.discharged("PL-PURE", f2, f2.node, "no write event reaches the data passed in (conversions act on private copies)")
+    # PL-DTYPE: what is drawn is a function of the numbers in the diagrams, not of their numpy dtype — rotated / projected
+    # coordinates (floats) must not be stored into a scratch array typed by an integer diagram (rules/dtype_rule.py)
+    from . import dtype_rule as _dt
+    _fns = [f_ for q_, f_ in sorted(project.functions.items()) if q_.startswith("persim.visuals.") and f_.parent is None
+            and isinstance(f_.node, (ast.FunctionDef, ast.AsyncFunctionDef))]
+    if _fns:
+        _dt.run_on(project, rep, "PL-DTYPE", _fns)
+    rep.floor("PL-DTYPE", 1)
     for rn, n in (("PL-SEG", 2), ("PL-IDX", 6), ("PL-FOOT", 6), ("PL-MAX", 1), ("PL-DGM", 4), ("PL-LIM", 4), ("PL-LAND", 2), ("PL-PURE", 5)):
         rep.floor(rn, n)
     for t in ("matplotlib.axes.Axes.plot", "matplotlib.axes.Axes.scatter", "matplotlib.pyplot.plot", "numpy.argmax",
